@@ -35,36 +35,37 @@ def check(ctx, src):
     ctx.functions.add(f"{REL}:gensym")
     body = g.items[3:] if g.items[2].kind == "list" else g.items[2:]
 
-    # --- find the protected region -----------------------------------------
-    region = None
+    # --- find the protected regions, anywhere in the module (the counter may be advanced in a helper) -------------
+    region = []
     how = None
-    for i, f in enumerate(body):
-        if _is_method_call(f, "acquire", LOCK):
-            nxt = body[i + 1] if i + 1 < len(body) else None
-            if nxt is not None and nxt.kind == "expr" and nxt.head() == "try":
-                fin = [c for c in nxt.items[1:] if c.kind == "expr" and c.head() == "finally"]
-                if fin and any(_is_method_call(x, "release", LOCK) for x in fin[0].items[1:]):
-                    region = [c for c in nxt.items[1:] if not (c.kind == "expr" and c.head() in ("finally", "except", "else"))]
-                    how = "acquire; try/finally release"
-                    ctx.ok("LOCK-REGION", f"{REL}|gensym|acquire-try-finally", "release is in the finally of the try that directly follows acquire")
+    for blk_owner in hf.walk():
+        if blk_owner.kind != "expr":
+            continue
+        items = blk_owner.items
+        for i, f in enumerate(items):
+            if _is_method_call(f, "acquire", LOCK):
+                nxt = items[i + 1] if i + 1 < len(items) else None
+                if nxt is not None and nxt.kind == "expr" and nxt.head() == "try":
+                    fin = [c for c in nxt.items[1:] if c.kind == "expr" and c.head() == "finally"]
+                    if fin and any(_is_method_call(x, "release", LOCK) for x in fin[0].items[1:]):
+                        region += [c for c in nxt.items[1:] if not (c.kind == "expr" and c.head() in ("finally", "except", "else"))]
+                        how = "acquire; try/finally release"
+                        ctx.ok("LOCK-REGION", f"{REL}|{_fn_of(f)}|acquire-try-finally", "release is in the finally of the try that directly follows acquire")
+                    else:
+                        ctx.bad("LOCK-REGION", f"{REL}|{_fn_of(f)}|acquire-try-finally",
+                                "the try following (.acquire _gensym_lock) has no finally that releases the lock", REL, f.line,
+                                witness="an exception (e.g. KeyboardInterrupt) inside the region leaves the lock held; later gensym calls never return")
+                        region += [c for c in nxt.items[1:]]
                 else:
-                    ctx.bad("LOCK-REGION", f"{REL}|gensym|acquire-try-finally",
-                            "the try following (.acquire _gensym_lock) has no finally that releases the lock", REL, f.line,
-                            witness="an exception (e.g. KeyboardInterrupt) inside the region leaves the lock held; later gensym calls never return")
-                    region = [c for c in nxt.items[1:]]
-            else:
-                ctx.bad("LOCK-REGION", f"{REL}|gensym|acquire-try-finally",
-                        "(.acquire _gensym_lock) is not immediately followed by a try/finally that releases it", REL, f.line,
-                        witness="an exception between acquire and release leaves the lock held")
-        if f.kind == "expr" and f.head() == "with" and len(f.items) > 1 and f.items[1].kind == "list" and any(
-            x.is_sym(LOCK) for x in f.items[1].items
-        ):
-            region = f.items[2:]
-            how = "with lock"
-            ctx.ok("LOCK-REGION", f"{REL}|gensym|with-lock", "region is the body of (with [_gensym_lock] ...)")
-    if region is None:
-        region = []
-        ctx.bad("LOCK-REGION", f"{REL}|gensym|region", "gensym has no region protected by _gensym_lock", REL, g.line,
+                    ctx.bad("LOCK-REGION", f"{REL}|{_fn_of(f)}|acquire-try-finally",
+                            "(.acquire _gensym_lock) is not immediately followed by a try/finally that releases it", REL, f.line,
+                            witness="an exception between acquire and release leaves the lock held")
+        if blk_owner.head() == "with" and len(items) > 1 and items[1].kind == "list" and any(x.is_sym(LOCK) for x in items[1].items):
+            region += items[2:]
+            how = how or "with lock"
+            ctx.ok("LOCK-REGION", f"{REL}|{_fn_of(blk_owner)}|with-lock", "region is the body of (with [_gensym_lock] ...)")
+    if not region:
+        ctx.bad("LOCK-REGION", f"{REL}|gensym|region", "no region of hy/core/util.hy is protected by _gensym_lock", REL, g.line,
                 witness="two threads interleave read/increment/write of the counter and obtain the same number")
 
     # --- every counter reference is inside the region --------------------------
@@ -104,14 +105,20 @@ def check(ctx, src):
               witness="every call returns the same number", detail="counter advanced inside region")
     ctx.check(copyvar is not None, "LOCK-UPDATE", f"{REL}|gensym|copy", "the locked region does not copy the counter into a local", REL, g.line,
               witness="the name is built from the shared counter after release", detail=f"copied to local `{copyvar}`")
-    globs = {s.val for f in g.find("global") for s in f.items[1:] if s.kind == "sym"}
-    globs |= {s.val for f in g.find("nonlocal") for s in f.items[1:] if s.kind == "sym"}
+    owner = g
+    if region:
+        o = region[0]
+        while o is not None and not (o.kind == "expr" and o.head() == "defn"):
+            o = o._parent
+        owner = o or g
+    globs = {s.val for f in owner.find("global") for s in f.items[1:] if s.kind == "sym"}
+    globs |= {s.val for f in owner.find("nonlocal") for s in f.items[1:] if s.kind == "sym"}
     if copyvar:
         ctx.check(copyvar not in globs, "LOCK-UPDATE", f"{REL}|gensym|copy-local",
                   f"the copy `{copyvar}` is declared global, so it is shared between threads", REL, g.line,
                   witness="thread B overwrites the copy before thread A formats its name", detail="copy is function-local")
         # the local must not be re-assigned outside the region
-        for f in g.find("setv"):
+        for f in owner.find("setv"):
             its = f.items[1:]
             for t, v in zip(its[::2], its[1::2]):
                 if t.is_sym(copyvar) and not any(_inside(f, r) for r in region):
@@ -157,7 +164,8 @@ def check(ctx, src):
     ok_t = tmpl.kind == "str" and tmpl.val.startswith("_hy_gensym_") and tmpl.val.count("{}") == 2
     ctx.check(ok_t, "GENSYM-NAME", f"{REL}|gensym|template", f"name template {tmpl.src()} must start with `_hy_gensym_` and have two fields",
               REL, f.line, witness="(hy.gensym) no longer starts with the reserved prefix", detail=tmpl.src())
-    ok_a = len(args) == 2 and args[0].is_sym(param) and copyvar is not None and args[1].is_sym(copyvar)
+    gl = {s.val for f in g.find("global") for s in f.items[1:] if s.kind == "sym"}
+    ok_a = len(args) == 2 and args[0].is_sym(param) and copyvar is not None and args[1].kind == "sym" and not args[1].is_sym(COUNTER) and args[1].val not in gl
     ctx.check(ok_a, "GENSYM-NAME", f"{REL}|gensym|fields", f"template fields must be the argument `{param}` and the counter copy `{copyvar}`, got "
               + " ".join(a.src() for a in args), REL, f.line, witness="two calls with the same argument return the same symbol", detail="fields (g, n)")
     par = f._parent
@@ -165,16 +173,33 @@ def check(ctx, src):
               "the formatted name is not passed through hy.mangle", REL, f.line,
               witness='(hy.gensym "a-b") is not already mangled', detail="hy.mangle applied")
     # fix-up: (if (.startswith g "_hyx_") (+ "_" (cut g (len "_hyx_") None)) g)
-    fix = [n for n in g.walk() if n.kind == "expr" and n.head() == ".startswith" and len(n.items) > 2 and n.items[2].kind == "str" and n.items[2].val == "_hyx_"]
-    good = False
+    # literal strings bound to locals of gensym (so that the prefix may be named)
+    consts = {}
+    for f2 in g.find("setv"):
+        its = f2.items[1:]
+        for t, v in zip(its[::2], its[1::2]):
+            if t.kind == "sym" and v.kind == "str":
+                consts[t.val] = v.val
+
+    def strval(n):
+        return n.val if n.kind == "str" else consts.get(n.val) if n.kind == "sym" else None
+
+    fix = [n for n in g.walk() if n.kind == "expr" and n.head() == ".startswith" and len(n.items) > 2 and strval(n.items[2]) == "_hyx_"]
+    good = None
     if fix:
+        good = False
         iff = fix[0]._parent
+        negated = False
+        if iff is not None and iff.head() == "not":
+            negated, iff = True, iff._parent
         if iff is not None and iff.head() == "if" and len(iff.items) == 4:
-            then = iff.items[2]
-            good = (then.kind == "expr" and then.head() == "+" and then.items[1].kind == "str" and then.items[1].val == "_"
-                    and then.items[2].kind == "expr" and then.items[2].head() == "cut"
-                    and '(len "_hyx_")' in then.items[2].src())
-    ctx.check(good, "GENSYM-NAME", f"{REL}|gensym|hyx-fixup",
+            then = iff.items[3] if negated else iff.items[2]
+            other = iff.items[2] if negated else iff.items[3]
+            cutok = (then.kind == "expr" and then.head() == "+" and then.items[1].kind == "str" and then.items[1].val == "_"
+                     and then.items[2].kind == "expr" and then.items[2].head() == "cut" and len(then.items[2].items) >= 3
+                     and then.items[2].items[2].kind == "expr" and then.items[2].items[2].head() == "len" and strval(then.items[2].items[2].items[1]) == "_hyx_")
+            good = cutok and other.kind == "sym" and other.val == fix[0].items[1].val
+    ctx.decide("GENSYM-NAME", f"{REL}|gensym|hyx-fixup", good,
               "the `_hyx_` fix-up that keeps the reserved `_hy_` prefix is missing or altered", REL, g.line,
               witness='(hy.gensym "a!") starts with `_hyx_` instead of `_hy_`', detail='"_" + g[len("_hyx_"):]')
     ctx.floor("LOCK-REGION", 4)
